@@ -233,9 +233,15 @@ func c13InitRange(kind int, from, to uint64) (ran int, bad []c13InitResult) {
 	if err != nil {
 		return 0, []c13InitResult{{from, err.Error(), true}}
 	}
+	// a child that a fatal log line ends leaves its temporary directories behind: they live under one of ours
+	tmp, err := os.MkdirTemp("", "verif-c13init-")
+	if err != nil {
+		return 0, []c13InitResult{{from, err.Error(), true}}
+	}
+	defer os.RemoveAll(tmp)
 	for from < to {
 		cmd := exec.Command(exe, "-test.run", "^TestC13InitChild$", "-test.count", "1", "-test.timeout", "20m")
-		cmd.Env = append(os.Environ(), fmt.Sprintf("VERIF_C13INIT_FROM=%d", from), fmt.Sprintf("VERIF_C13INIT_TO=%d", to), fmt.Sprintf("VERIF_C13INIT_KIND=%d", kind), "GOLOG_LOG_LEVEL=fatal")
+		cmd.Env = append(os.Environ(), "TMPDIR="+tmp, fmt.Sprintf("VERIF_C13INIT_FROM=%d", from), fmt.Sprintf("VERIF_C13INIT_TO=%d", to), fmt.Sprintf("VERIF_C13INIT_KIND=%d", kind), "GOLOG_LOG_LEVEL=fatal")
 		out, err := cmd.CombinedOutput()
 		text := string(out)
 		ran += strings.Count(text, "C13INIT done seed=")
